@@ -30,6 +30,7 @@ var (
 	flagNoEv   = flag.Bool("noevidence", false, "do not write evidence files")
 	flagMutant = flag.String("mutant", "", "run the rules on one registered mutant (id) instead of the tree")
 	flagStrict = flag.Bool("strict", false, "fail (exit 2) when a registered mutant survives or is stale")
+	flagFind   = flag.String("findings", "", "(internal) also write the result of this run as JSON to the given file; used by the thorough tier, which analyses every variant in a child process")
 	flagDesc   = flag.Bool("describe", false, "print the registered properties (id, decides, not decided, mutants) as JSON and exit")
 )
 
@@ -109,6 +110,11 @@ func main() {
 	for _, id := range ids {
 		p := rules.Get(id)
 		res := runProp(prog, p, *flagTier, kf)
+		if *flagFind != "" {
+			if b, err := json.Marshal(res); err == nil {
+				_ = os.WriteFile(*flagFind, b, 0o644)
+			}
+		}
 		var mres []mutantResult
 		if *flagTier == "thorough" && *flagMutant == "" && *flagPatch == "" {
 			mres = runMutants(p, res, kf)
@@ -153,7 +159,7 @@ func runMutants(p *rules.Prop, base rt.Result, kf rt.KnownFile) []mutantResult {
 		}
 	}
 	out := make([]mutantResult, len(p.Mutants))
-	sem := make(chan struct{}, 4)
+	sem := make(chan struct{}, 6)
 	var wg sync.WaitGroup
 	for i, m := range p.Mutants {
 		wg.Add(1)
@@ -172,12 +178,12 @@ func runMutants(p *rules.Prop, base rt.Result, kf rt.KnownFile) []mutantResult {
 				r.Status, r.Detail = "stale", "locator text not found (or not unique) in "+m.File
 				return
 			}
-			prog, err := load.Load(load.Options{Dir: *flagRepo, Overlay: ov})
+			_ = ov
+			res, outp, err := childResult(p, "-mutant", m.ID)
 			if err != nil {
-				r.Status, r.Detail = "broken", "variant does not type-check: "+err.Error()
+				r.Status, r.Detail = "broken", "variant does not type-check or the child run failed: "+firstLine(outp, "UNDECIDED")
 				return
 			}
-			res := runProp(prog, p, "quick", kf)
 			rule, sub, _ := strings.Cut(m.Expect, "|")
 			for _, f := range res.Findings {
 				if f.Status != rt.Violation || baseBad[key(f)] {
@@ -215,22 +221,20 @@ func runSeeded(p *rules.Prop, base rt.Result, kf rt.KnownFile) []mutantResult {
 			baseBad[key(f)] = true
 		}
 	}
-	var out []mutantResult
-	for _, d := range dirs {
+	out := make([]mutantResult, len(dirs))
+	forEach(len(dirs), 6, func(i int) {
+		d := dirs[i]
 		r := mutantResult{ID: "seeded/" + filepath.Base(filepath.Dir(d)), Expect: "any rule of " + p.ID}
-		ov, err := patchOverlay(*flagRepo, d)
-		if err != nil {
+		defer func() { out[i] = r }()
+		if _, err := patchOverlay(*flagRepo, d); err != nil {
 			r.Status, r.Detail = "stale", "patch does not apply to the current tree"
-			out = append(out, r)
-			continue
+			return
 		}
-		prog, err := load.Load(load.Options{Dir: *flagRepo, Overlay: ov})
+		res, outp, err := childResult(p, "-patch", d)
 		if err != nil {
-			r.Status, r.Detail = "broken", err.Error()
-			out = append(out, r)
-			continue
+			r.Status, r.Detail = "broken", firstLine(outp, "UNDECIDED")
+			return
 		}
-		res := runProp(prog, p, "quick", kf)
 		for _, f := range res.Findings {
 			if f.Status == rt.Violation && !baseBad[key(f)] && r.By == "" {
 				r.By = key(f) + " @ " + f.Pos
@@ -241,8 +245,7 @@ func runSeeded(p *rules.Prop, base rt.Result, kf rt.KnownFile) []mutantResult {
 		} else {
 			r.Status = "survived"
 		}
-		out = append(out, r)
-	}
+	})
 	return out
 }
 
@@ -257,22 +260,20 @@ func runRefactors(p *rules.Prop, base rt.Result, kf rt.KnownFile) []mutantResult
 			baseBad[key(f)] = true
 		}
 	}
-	var out []mutantResult
-	for _, d := range files {
+	out := make([]mutantResult, len(files))
+	forEach(len(files), 6, func(i int) {
+		d := files[i]
 		r := mutantResult{ID: "refactor/" + p.ID + "/" + filepath.Base(d), Expect: "no new violation"}
-		ov, err := patchOverlay(*flagRepo, d)
-		if err != nil {
+		defer func() { out[i] = r }()
+		if _, err := patchOverlay(*flagRepo, d); err != nil {
 			r.Status, r.Detail = "stale", "patch does not apply to the current tree"
-			out = append(out, r)
-			continue
+			return
 		}
-		prog, err := load.Load(load.Options{Dir: *flagRepo, Overlay: ov})
+		res, outp, err := childResult(p, "-patch", d)
 		if err != nil {
-			r.Status, r.Detail = "stale", "refactored tree does not type-check: "+err.Error()
-			out = append(out, r)
-			continue
+			r.Status, r.Detail = "stale", "refactored tree does not type-check or the child run failed: "+firstLine(outp, "UNDECIDED")
+			return
 		}
-		res := runProp(prog, p, "quick", kf)
 		r.Status = "silent"
 		if len(res.Undecided) > 0 {
 			r.Status = "silent-undecided"
@@ -283,9 +284,58 @@ func runRefactors(p *rules.Prop, base rt.Result, kf rt.KnownFile) []mutantResult
 				r.Status, r.By = "alarm", key(f)+" @ "+f.Pos
 			}
 		}
-		out = append(out, r)
-	}
+	})
 	return out
+}
+
+// childResult analyses one variant (a registered mutant or a patch) in a child process and returns its result.
+// Every variant is a fresh whole-repository load; rule files keep per-program memo tables, so analysing the
+// variants in-process retained every loaded program (>50 GB on the property with the most variants).
+func childResult(p *rules.Prop, extra ...string) (rt.Result, string, error) {
+	f, err := os.CreateTemp("", "charonlint-res-*.json")
+	if err != nil {
+		return rt.Result{}, "", err
+	}
+	f.Close()
+	defer os.Remove(f.Name())
+	args := []string{"-prop", p.ID, "-tier", "quick", "-repo", *flagRepo, "-known", *flagKnown, "-noevidence", "-findings", f.Name()}
+	args = append(args, extra...)
+	cmd := exec.Command(os.Args[0], args...)
+	out, runErr := cmd.CombinedOutput()
+	b, rerr := os.ReadFile(f.Name())
+	if rerr != nil || len(b) == 0 {
+		return rt.Result{}, string(out), fmt.Errorf("no result from the child run (%v)", runErr)
+	}
+	var res rt.Result
+	if err := json.Unmarshal(b, &res); err != nil {
+		return rt.Result{}, string(out), err
+	}
+	return res, string(out), nil
+}
+
+func firstLine(s, sub string) string {
+	for _, l := range strings.Split(s, "\n") {
+		if strings.Contains(l, sub) {
+			return l
+		}
+	}
+	return strings.TrimSpace(s)
+}
+
+// forEach runs fn for i in [0,n) with at most k at a time.
+func forEach(n, k int, fn func(i int)) {
+	sem := make(chan struct{}, k)
+	var wg sync.WaitGroup
+	for i := 0; i < n; i++ {
+		wg.Add(1)
+		go func() {
+			defer wg.Done()
+			sem <- struct{}{}
+			defer func() { <-sem }()
+			fn(i)
+		}()
+	}
+	wg.Wait()
 }
 
 func mutantOverlay(repo string, m rules.Mutant) (map[string][]byte, bool, error) {
